@@ -345,7 +345,7 @@ type faithWalker struct {
 }
 
 func (w *faithWalker) bad(class, what string) {
-	if w.typesOnly && class != "abstract-value-mistyped" {
+	if w.typesOnly && !strings.HasPrefix(class, "abstract-value-mistyped") {
 		return
 	}
 	if len(w.problems) < 8 {
@@ -540,7 +540,14 @@ func (w *faithWalker) value(t *ast.Type, sub ast.SelectionSet, x any, d dumpNode
 					okType = okType || po.Name == tn
 				}
 				if !okType {
-					w.bad("abstract-value-mistyped", fmt.Sprintf("%s: input has __typename %q (missing or not a possible type of %s), yet a value of Go type %v %s was decoded instead of an error", path, tn, def.Name, d["t"], dyn))
+					cls := "abstract-value-mistyped"
+					if w.flattenedToSuperInterface(def, dyn) {
+						// the field's interface type implements the interface the flattened fragment is on: the Go field has
+						// the FRAGMENT's interface type, whose switch knows all implementations of the wider interface
+						// (known finding F-19j)
+						cls += ":flatten-to-super-interface"
+					}
+					w.bad(cls, fmt.Sprintf("%s: input has __typename %q (missing or not a possible type of %s), yet a value of Go type %v %s was decoded instead of an error", path, tn, def.Name, d["t"], dyn))
 					return
 				}
 			}
@@ -735,4 +742,25 @@ func dedupKeep(xs []string) []string {
 
 func looksLikeTime(s string) bool {
 	return len(s) >= 10 && s[4] == '-' && s[7] == '-' && s[0] >= '0' && s[0] <= '9' && s[1] >= '0' && s[1] <= '9'
+}
+
+
+// flattenedToSuperInterface: the Go value at a position of abstract type `def` is an implementation struct of a
+// named fragment on an interface that `def` itself implements (`flatten: true` on such a field).
+func (w *faithWalker) flattenedToSuperInterface(def *ast.Definition, dyn string) bool {
+	if w.ex == nil || w.ex.doc == nil {
+		return false
+	}
+	impl := strings.TrimPrefix(dyn[strings.LastIndex(dyn, ".")+1:], "*")
+	for _, fr := range w.ex.doc.Fragments {
+		if fr.TypeCondition == def.Name || !strings.HasPrefix(impl, fr.Name) {
+			continue
+		}
+		for _, in := range def.Interfaces {
+			if in == fr.TypeCondition {
+				return true
+			}
+		}
+	}
+	return false
 }
